@@ -106,7 +106,8 @@ def enum_repeated_terms():
 
 
 def enum_enums_bools_times():
-    en = [{"raw": crit.tv_int(0), "label": "OFF"}, {"raw": crit.tv_int(1), "label": "ON"}, {"raw": crit.tv_int(5), "label": "FIVE"}]
+    en = [{"raw": crit.tv_int(0), "label": "OFF"}, {"raw": crit.tv_int(1), "label": "ON"}, {"raw": crit.tv_int(5), "label": "FIVE"},
+          {"raw": crit.tv_int(6), "label": ""}]        # an empty label is a label: the value is listed
     calsets = [NOCAL, {"default": poly([(rat(10), 0), (rat(3), 1)]), "context": []},
                {"default": {"k": "none"}, "context": [{"crit": [cmp("SELF", ">=", 0, False)], "cal": poly([(rat(7), 0)])}]}]
     for cs in calsets:
